@@ -252,6 +252,8 @@ class Tally:
         self.known = {}
 
     def add(self, text, via):
+        if judge(text, via)[1] is None and (full_repair() is None or judge(text, via, full_repair())[1] is None):
+            return                  # not a failing text at all (neither for the real code nor behind the repairs)
         kid = attribute(text, via)
         if kid is None:
             self.texts.append((text, via))
@@ -443,9 +445,16 @@ def _expand(arg):
         if inprog is not None and inprog != ref.lines:
             bad = True            # lines credited so far to the unfinished logical line already differ
         if bad:
-            succ[L] = "VIOL"
-            # as a replayable text the violating prefix must be closed: append what makes it well-formed at EOF
-            tally.add(_close("".join(path) + L + "\n", ref), "c_file_source")
+            # as a replayable text the violating prefix must be closed: append what makes it a well-formed text
+            # on which the implementation's *final* answer is wrong
+            closed = _close_failing("".join(path) + L + "\n", impl)
+            if closed is not None:
+                succ[L] = "VIOL"
+                tally.add(closed, "c_file_source")
+                continue
+            # no closing shows a wrong final answer (yet): the implementation only emitted / credited lines at
+            # another moment than the reference.  Not a violation by itself - keep exploring behind it.
+            succ[L] = (snap, ref.key(), "diverged")
             continue
         fin = _clone(ref)
         try:                      # EOF right after this line (text ends with a newline)
@@ -472,12 +481,19 @@ def _expand(arg):
     return path, succ, tally, trans, pruned, eofs
 
 
-def _close(text, ref):
-    """Shortest suffix that makes a (prefix-well-formed) text well-formed at EOF."""
-    for suffix in ("", "a\n", "*/\n", '"\n', "'\n", "a*/\n", 'a"\n', "a'\n"):
-        if cscan.scan(text + suffix)[0] is not None:
-            return text + suffix
-    return text
+_CLOSERS = ["", "*/", '"', "'", "a*/", 'a"', "a'"]
+_TAILS = ["", "\n", "a\n", " a\n", "\na\n", "\n#\n", "\\\na\n"]
+
+
+def _close_failing(text, impl):
+    """First suffix (simplest first) that makes the prefix a well-formed text which this implementation gets wrong."""
+    for tail in _TAILS:
+        for c in _CLOSERS:
+            t = text + c + tail
+            exp, j = judge(t, "c_file_source", impl)
+            if exp is not None and j is not None:
+                return t
+    return None
 
 
 def explore_s(maxlen, which="real", depth_cap=12):
